@@ -31,6 +31,9 @@ type env struct {
 	router int
 	rn     string
 	extras bool
+	// dynamic-issuer worlds only: the view (Host / Forwarded header) under which the next requests arrive
+	host      string
+	forwarded string
 }
 
 // The clients that own pool tokens. web / web2: confidential, opaque access tokens; webj: confidential, JWT access
@@ -41,9 +44,32 @@ var ownerIDs = []string{"web", "web2", "webj", "native"}
 var basicIDs = []string{"web", "web2", "webj"}
 
 func newEnv(run *ev.Run, router int, extras bool) *env {
+	return newEnvIssuer(run, router, extras, nil)
+}
+
+// hostRewriter makes every request of the world arrive under the view the case currently plays (Host header and
+// optional Forwarded header), so that the unchanged opdrv drivers can be used under a host-dependent issuer.
+type hostRewriter struct {
+	inner http.Handler
+	e     *env
+}
+
+func (h hostRewriter) ServeHTTP(w http.ResponseWriter, r *http.Request) {
+	if h.e.host != "" {
+		r.Host = h.e.host
+		r.URL.Host = h.e.host
+	}
+	if h.e.forwarded != "" {
+		r.Header.Set("Forwarded", h.e.forwarded)
+	}
+	h.inner.ServeHTTP(w, r)
+}
+
+// newEnvIssuer: issuerFn nil = the static default issuer; otherwise a host-dependent issuer strategy.
+func newEnvIssuer(run *ev.Run, router int, extras bool, issuerFn func(bool) (op.IssuerFromRequest, error)) *env {
 	caps := vstore.Full
 	caps.Extras = extras // with Extras end_session goes through TerminateSessionFromRequest, without through TerminateSession
-	w := opdrv.MustWorld(opdrv.Options{Config: opdrv.DefaultConfig(), Caps: caps})
+	w := opdrv.MustWorld(opdrv.Options{Config: opdrv.DefaultConfig(), Caps: caps, IssuerFn: issuerFn})
 	w.Store.SetJournal(false)
 	cl := opdrv.StdClients(w.Store)
 	webj := *cl["web"]
@@ -53,7 +79,13 @@ func newEnv(run *ev.Run, router int, extras bool) *env {
 	webj.TokenType = op.AccessTokenTypeJWT
 	w.Store.AddClient(&webj)
 	cl["webj"] = &webj
-	return &env{run: run, w: w, cl: cl, router: router, rn: opdrv.RouterNames[router], extras: extras}
+	e := &env{run: run, w: w, cl: cl, router: router, rn: opdrv.RouterNames[router], extras: extras}
+	if issuerFn != nil {
+		for i := range w.Handlers {
+			w.Handlers[i] = hostRewriter{w.Handlers[i], e}
+		}
+	}
+	return e
 }
 
 // minted is the result of one real authorization-code flow.
